@@ -98,7 +98,7 @@ def r35_fraction_digits(ctx):
               "fractions are rendered with a fixed number of digits, then "
               "right-stripped, never empty",
               "TimePoint._decimal_string: %s (0.05 would be written as the "
-              "digits of 0.5)" % "; ".join(problems), ("C08",))
+              "digits of 0.5)" % "; ".join(problems), ("C08", "C07"))
 
 
 # ------------------------------------------------------------------- R36
@@ -204,13 +204,13 @@ def r36_none_vs_zero(ctx):
                 "%s tests `%s` by truthiness; its default is None but 0 is a "
                 "legal value, so 'zero' is taken for 'not given' (e.g. a "
                 "+00:00 zone on a truncated point becomes an unknown zone)"
-                % (f.qual, name), ("C07", "C09", "C20"))
+                % (f.qual, name), ("C07", "C09", "C20", "C08"))
         if not bad:
             rep.ok(rule, ctx.fkey(f, None, "is-none-tests"), f.loc(),
                    "%d nullable arguments for which zero is legal (%s) are "
                    "never tested by truthiness" % (len(nullable),
                                                    ", ".join(nullable)),
-                   ("C07", "C09", "C20"))
+                   ("C07", "C09", "C20", "C08"))
 
 
 # ------------------------------------------------------------------- R37
@@ -532,6 +532,8 @@ def r41_mixed_rounding(ctx):
             if isinstance(n, ast.BinOp) and isinstance(n.op, ast.Mod) and \
                     not isinstance(n.left, ast.Constant):
                 mods.append((U(n.left), U(n.right), n))
+            if isinstance(n, ast.AugAssign) and isinstance(n.op, ast.Mod):
+                mods.append((U(n.target), U(n.value), n))
         for a, k, n1 in truncs:
             for b, k2, n2 in mods:
                 if a == b and k == k2:
@@ -543,10 +545,10 @@ def r41_mixed_rounding(ctx):
                         "values the two parts belong to different quotients "
                         "(e.g. one second before the epoch lands a day "
                         "late)" % (f.qual, a, a, k, b, k2),
-                        ("C18", "C11", "C01", "C04"))
+                        ("C18", "C11", "C01", "C04", "C17"))
     rep.anchor(rule, "functions", n_f)
     rep.ok(rule, "package:rounding", "-",
-           "no function pairs int(x / k) with x % k", ("C18", "C11"))
+           "no function pairs int(x / k) with x % k", ("C18", "C11", "C17"))
 
 
 # ------------------------------------------------------------------- R42
@@ -586,13 +588,14 @@ def r42_dst_condition(ctx):
                   "daylight offset must apply only when daylight saving is "
                   "defined for the zone *and* currently in effect (a zone "
                   "with DST rules reports its summer offset in winter)" %
-                  (txt or "always"), ("C18",))
+                  (txt or "always"), ("C18", "C06"))
     also = [n for n in walk_no_nested(f.node)
             if isinstance(n, ast.Attribute) and n.attr == "timezone" and
             U(n.value) == "time"]
     rep.check(bool(also), rule, ctx.fkey(f, None, "standard-offset"),
               f.loc(), "the standard offset is time.timezone",
-              "get_local_time_zone no longer reads time.timezone", ("C18",),
+              "get_local_time_zone no longer reads time.timezone",
+              ("C18", "C06"),
               nontrivial=False)
 
 
@@ -899,11 +902,57 @@ def r47_one_based_guards(ctx):
                 "(%s-1)%%%s+1" % (dow, K), "1+(%s-1)%%%s" % (dow, K)}
         ok = bool(finals) and finals <= good
         why = "the weekday is left as %s" % sorted(finals)
+    _r47_time_fields(ctx, rep, rule, f)
     rep.check(ok, rule, ctx.fkey(f, None, "weekday-modulo"), f.loc(),
               "the 1-based weekday is normalised as divmod(d - 1, 7) + 1",
               "weekday normalisation: %s; a 1-based field must be shifted "
               "to 0-based for the modulo and back (Sunday = 7 would become "
               "0 of the next week)" % why, ("C01", "C06", "C20"))
+
+
+def _r47_time_fields(ctx, rep, rule, f):
+    """The three radix fields of the time of day are left, after their carry
+    block of _tick_over, as exactly the remainder of the division by their
+    radix: nothing (rounding, clamping, an offset) is applied to the
+    remainder, which could put it back at or beyond the radix."""
+    from ..dtable import explore
+    selfn = f.self_name
+    for fld, K in (("_second_of_minute", "CALENDAR.SECONDS_IN_MINUTE"),
+                   ("_minute_of_hour", "CALENDAR.MINUTES_IN_HOUR"),
+                   ("_hour_of_day", "CALENDAR.HOURS_IN_DAY")):
+        blocks = []
+        for n in walk_no_nested(f.node):
+            if isinstance(n, ast.If) and fld in U(n.test) and \
+                    "is not None" in U(n.test) and any(
+                        (isinstance(x, ast.BinOp) and isinstance(
+                            x.op, ast.Mod)) or
+                        (isinstance(x, ast.AugAssign) and isinstance(
+                            x.op, ast.Mod)) or
+                        (isinstance(x, ast.Call) and U(x.func) == "divmod")
+                        for st in n.body for x in ast.walk(st)
+                        if K in U(x)):
+                blocks.append(n)
+        if not blocks:
+            continue
+        me = "%s.%s" % (selfn, fld)
+        finals = set()
+        for n in blocks:
+            for p in explore(n.body):
+                v = p.env.get("@" + me)
+                if v is not None:
+                    finals.add(U(v).replace(" ", ""))
+        good = {"divmod(%s,%s)[1]" % (me, K), "%s%%%s" % (me, K)}
+        if not finals:
+            continue
+        rep.check(finals <= good, rule,
+                  ctx.fkey(f, None, "remainder:" + fld), f.loc(blocks[0]),
+                  "%s is left as its remainder modulo %s" % (fld, K),
+                  "after its carry %s is set to %s instead of the plain "
+                  "remainder modulo %s: whatever is applied to the "
+                  "remainder (rounding up to the radix, say) is not carried "
+                  "any more, so the field can reach its radix (second 60, "
+                  "minute 60, hour 24)" % (fld, sorted(finals - good), K),
+                  ("C01", "C06", "C02", "C04", "C20"))
 
 
 # ------------------------------------------------------------------- R48
@@ -1155,3 +1204,67 @@ def r49_week_year_span(ctx):
 
 
 RULES["R49"] = r49_week_year_span
+
+
+# ------------------------------------------------------------------- R50
+def r50_length_needs_its_year(ctx):
+    """The length of a month depends on the year.  The helper that returns
+    it offers a default for callers that do not know the year
+    (`year="leap"`: the longest the month can be, used to bound a day whose
+    year is missing).  Code that works on a definite date - any TimePoint
+    method - may rely on that default only where the object's year is
+    tested to be None; everywhere else the year of the same object must be
+    passed."""
+    rep = ctx.rep
+    rule = "R50.length-needs-year"
+    from ..flow import path_conds
+    rep.need_anchor(rule, "month-length calls")
+    target = ctx.try_func("data.get_days_in_month")
+    if target is None:
+        raise AnalysisError("data.get_days_in_month not found")
+    params = target.call_params
+    defaults = target.node.args.defaults
+    ypar = None
+    if defaults and len(params) >= 2:
+        ypar = params[len(params) - len(defaults):][0] \
+            if "year" not in params else "year"
+    if ypar is None:
+        rep.anchor(rule, "month-length calls")
+        rep.ok(rule, ctx.mkey("data", "get_days_in_month:no-default"), "-",
+               "get_days_in_month has no defaulted year parameter", ("C01",),
+               nontrivial=False)
+        return
+    for f in ctx.model.all_functions():
+        if f.module.name != "data" or f is target:
+            continue
+        for c in walk_no_nested(f.node):
+            if not (isinstance(c, ast.Call) and isinstance(
+                    c.func, ast.Name) and c.func.id == "get_days_in_month"):
+                continue
+            rep.anchor(rule, "month-length calls")
+            b = ctx.bound_args(f, c)
+            yv = b.get(ypar)
+            props = ("C01", "C05", "C06", "C02", "C09") \
+                if "_check_bounds" not in f.qual else ("C09",)
+            key = ctx.fkey(f, c, "year-argument")
+            unknown_year = any(
+                pol and re.search(r"\._year is None$", U(t)) or
+                (not pol and re.search(r"\._year is not None$", U(t)))
+                for t, pol in path_conds(c))
+            if yv is None or (isinstance(yv, ast.Constant) and
+                              isinstance(yv.value, str)):
+                rep.check(
+                    unknown_year, rule, key, f.loc(c),
+                    "the longest-possible month length is used only where "
+                    "the year is known to be missing",
+                    "%s asks for the length of a month without its year "
+                    "(%s): the helper then answers for a leap year, so in a "
+                    "common year February is taken to have 29 days although "
+                    "the year of the date is at hand" % (
+                        f.qual, "default" if yv is None else U(yv)), props)
+            else:
+                rep.ok(rule, key, f.loc(c),
+                       "month length asked for year %s" % U(yv), props)
+
+
+RULES["R50"] = r50_length_needs_its_year
